@@ -15,6 +15,28 @@ def new_trial_x(snap, ref):
     return [it.x for it in snap.items if it.x not in known]
 
 
+def resolution_horizon(run, cfg):
+    """True when the step-wise API could not place the next trial because an interval of maximal
+    characteristic (reference model fed with the run's own trials) has collapsed to end points at most
+    4 doubles apart - no double lies strictly inside it.  That is the C03 known finding (resolution
+    horizon); no trial is placed, so the properties about placed trials have no obligation there."""
+    from mc.env import ulp_dist
+    xs = list(getattr(run, "xlog", ()))
+    zs = [v for _, v in run.problem.log]
+    if len(xs) < 2 or len(xs) != len(zs) or any(x is None for x in xs):
+        return False
+    ref = RefAGP(cfg["N"], cfg.get("r", 2.0))
+    for x, z in zip(xs, zs):
+        ref.add(x, z)
+    R = ref.chars()
+    Rmax = max(R)
+    tol = 1e-9 * max(1.0, abs(Rmax))
+    for j, v in enumerate(R, start=1):
+        if v >= Rmax - tol and ulp_dist(ref.xs[j - 1], ref.xs[j]) <= 4:
+            return True
+    return False
+
+
 class AGPVisitor:
     """C02: every trial is placed by the AGP decision rule (step-wise conformance with RefAGP)."""
 
